@@ -24,16 +24,47 @@ package main
 //	                            the isolated run of the same session
 //	c18-history-wrong-digest    a digest differs from SHA-256(a xor b)
 //
+// FAILING STEPS.  The property says malformed and foreign input is rejected
+// with an error and every session is correct; in a process serving several
+// sessions a step can fail for reasons outside the session, and neither the
+// other sessions nor the failed session itself (on a retry) may notice.  Every
+// history therefore contains DISTURBED steps (event suffix `!...`), placed
+// before the undisturbed step of the same round (which is then the retry with
+// a good source) or anywhere later, always followed by more steps of the other
+// sessions:
+//
+//	!r<off>k<kind>  the random source given to round 1 / 2 / 3 fails at byte
+//	                <off> of what the round draws (kind 0: no bytes + error,
+//	                1: the bytes before the offset + error, 2: those bytes
+//	                without error, the next read fails); offsets: seeded
+//	                uniform inside the round's consumption + the boundaries
+//	                of what round 3 draws (key | R | input labels)
+//	!f<src>         round 3 / 4 is fed the message session <src> holds
+//	!s<src>         round 4 is run on the evaluator state of session <src>
+//	!u<mu>          the message arrives cut to fewer bytes / one byte longer
+//
+// Oracles on top of the three above:
+//
+//	c18-history-fault-accepted  a disturbed step returns a value
+//	c18-history-crash           a step panics
+//
+// and the existing ones now also judge the retry and everything after a
+// failure: the failed step must change no live object (immutability), the
+// retry must give the isolated run's value, every digest must be right.
+//
 // Op lines:  hist <k> <refs> <schedule>   (see Driver/C18.lean), one
 // `ceval <a> <b>` per session (Lean Circuit.compute = the digest obtained
 // inside the history).
 
 import (
+	"errors"
 	"flag"
 	"fmt"
+	"io"
 	"math/big"
 	"runtime"
 	"runtime/debug"
+	"sort"
 	"strings"
 
 	"github.com/markkurossi/mpc/ot"
@@ -199,6 +230,7 @@ type hsess struct {
 	ci         curveInfo
 	a, b       [32]byte
 	s1, s2, s3 uint64
+	n1, n2, n3 int            // bytes each round draws from its random source (isolated run)
 	ref        [nSlots]string // tags of the isolated run
 	has        [nSlots]bool
 	prod       [nSlots]string // tag at production time (deep copy)
@@ -243,20 +275,24 @@ func (s *hsess) refRun() (err error) {
 		}
 	}()
 	cv := s.ci.curve
-	m1, gs, err := sha2pc.GarblerRound1(hxlib.NewRng(s.s1), cv)
+	c1 := &countReader{inner: hxlib.NewRng(s.s1)}
+	m1, gs, err := sha2pc.GarblerRound1(c1, cv)
 	if err != nil {
 		return fmt.Errorf("round1: %w", err)
 	}
 	s.ref[slM1], s.ref[slGS] = hashR1(m1), hashGS(gs)
-	m2, es, err := sha2pc.EvaluatorRound2(hxlib.NewRng(s.s2), cv, m1, s.b)
+	c2 := &countReader{inner: hxlib.NewRng(s.s2)}
+	m2, es, err := sha2pc.EvaluatorRound2(c2, cv, m1, s.b)
 	if err != nil {
 		return fmt.Errorf("round2: %w", err)
 	}
 	s.ref[slM2], s.ref[slES] = hashR2(m2), hashES(es)
-	m3, err := sha2pc.GarblerRound3(hxlib.NewRng(s.s3), cv, gs, s.a, m2)
+	c3 := &countReader{inner: hxlib.NewRng(s.s3)}
+	m3, err := sha2pc.GarblerRound3(c3, cv, gs, s.a, m2)
 	if err != nil {
 		return fmt.Errorf("round3: %w", err)
 	}
+	s.n1, s.n2, s.n3 = c1.n, c2.n, c3.n
 	s.ref[slM3] = hashR3(m3)
 	out, err := sha2pc.EvaluatorRound4(cv, es, m3)
 	if err != nil {
@@ -272,6 +308,11 @@ type event struct {
 	sess int
 	act  string // g1 | e2 | g3 | e4
 	x, y bool   // consumption modes: true = through bytes
+	// disturbance of the step ("" = none): r random source fails at byte off
+	// (kind 0|1|2), f message of session src, s evaluator state of session src,
+	// u message bytes mutated in transit (mu)
+	dk                 string
+	off, kind, src, mu int
 }
 
 func modeCh(b bool) string {
@@ -282,19 +323,109 @@ func modeCh(b bool) string {
 }
 
 func (e event) String() string {
+	var base string
 	switch e.act {
 	case "g1":
-		return fmt.Sprintf("%d.g1", e.sess)
+		base = fmt.Sprintf("%d.g1", e.sess)
 	case "e2":
-		return fmt.Sprintf("%d.e2%s", e.sess, modeCh(e.x))
+		base = fmt.Sprintf("%d.e2%s", e.sess, modeCh(e.x))
 	default:
-		return fmt.Sprintf("%d.%s%s%s", e.sess, e.act, modeCh(e.x), modeCh(e.y))
+		base = fmt.Sprintf("%d.%s%s%s", e.sess, e.act, modeCh(e.x), modeCh(e.y))
+	}
+	switch e.dk {
+	case "r":
+		return fmt.Sprintf("%s!r%dk%d", base, e.off, e.kind)
+	case "f":
+		return fmt.Sprintf("%s!f%d", base, e.src)
+	case "s":
+		return fmt.Sprintf("%s!s%d", base, e.src)
+	case "u":
+		return fmt.Sprintf("%s!u%d", base, e.mu)
+	}
+	return base
+}
+
+// ---------------------------------------------------------------- disturbances
+
+// countReader counts what a round draws from its random source.
+type countReader struct {
+	inner io.Reader
+	n     int
+}
+
+func (c *countReader) Read(p []byte) (int, error) {
+	n, err := c.inner.Read(p)
+	c.n += n
+	return n, err
+}
+
+var errSource = errors.New("verif: random source failed")
+
+// faultReader delivers the first `left` bytes of the inner source and fails
+// afterwards, for good.  kind 0: the read that reaches the limit returns no
+// bytes and the error; 1: it returns the bytes before the limit and the error;
+// 2: it returns those bytes without an error (a short read), the next read
+// fails.
+type faultReader struct {
+	inner   io.Reader
+	left    int
+	kind    int
+	tripped bool
+}
+
+func (f *faultReader) Read(p []byte) (int, error) {
+	if f.tripped || f.left <= 0 {
+		f.tripped = true
+		return 0, errSource
+	}
+	if len(p) <= f.left {
+		n, err := f.inner.Read(p)
+		f.left -= n
+		return n, err
+	}
+	switch f.kind {
+	case 0:
+		f.tripped = true
+		return 0, errSource
+	case 1:
+		n, _ := f.inner.Read(p[:f.left])
+		f.left = 0
+		f.tripped = true
+		return n, errSource
+	default:
+		n, _ := f.inner.Read(p[:f.left])
+		f.left = 0
+		return n, nil
 	}
 }
 
-// exec runs one step on the real code.  Status ok | err | panic; on ok the
-// produced objects replace the session's live slots.
-func (s *hsess) exec(e event, step int) (status, msg string) {
+// source is the random source of the step: the session's tape, failing where
+// the event says.
+func (e event) source(seed uint64) io.Reader {
+	if e.dk == "r" {
+		return &faultReader{inner: hxlib.NewRng(seed), left: e.off, kind: e.kind}
+	}
+	return hxlib.NewRng(seed)
+}
+
+// mutateBytes is Model/Sha2pcProc.lean `mutate`: even mu cuts the encoding to
+// (mu/2) mod len bytes, odd mu appends the byte mu/2.
+func mutateBytes(mu int, b []byte) []byte {
+	if mu%2 == 0 {
+		if len(b) == 0 {
+			return b
+		}
+		return append([]byte(nil), b[:(mu/2)%len(b)]...)
+	}
+	return append(append([]byte(nil), b...), byte(mu/2))
+}
+
+// exec runs one step on the real code.  Status ok | err | panic | off (an
+// input of the step is not there, or the disturbance does not apply to the
+// round: nothing is run); on ok of an UNDISTURBED step the produced objects
+// replace the session's live slots.  A disturbed step never stores anything:
+// its ok is an oracle failure.
+func (s *hsess) exec(e event, step int, ss []*hsess) (status, msg string) {
 	defer func() {
 		if r := recover(); r != nil {
 			status, msg = "panic", clip(fmt.Sprint(r), 200)
@@ -307,35 +438,67 @@ func (s *hsess) exec(e event, step int) (status, msg string) {
 		s.prod[slot] = s.live(slot)
 		s.prodStep[slot] = step
 	}
+	clean := e.dk == ""
+	var q *hsess // the session a foreign input comes from
+	if e.dk == "f" || e.dk == "s" {
+		if e.src < 0 || e.src >= len(ss) {
+			return "off", ""
+		}
+		q = ss[e.src]
+	}
 	switch e.act {
 	case "g1":
-		m1, gs, err := sha2pc.GarblerRound1(hxlib.NewRng(s.s1), cv)
+		if e.dk != "" && e.dk != "r" {
+			return "off", ""
+		}
+		m1, gs, err := sha2pc.GarblerRound1(e.source(s.s1), cv)
 		if err != nil {
 			return fail("GarblerRound1", err)
 		}
-		s.m1, s.gs = m1, gs
-		set(slM1)
-		set(slGS)
+		if clean {
+			s.m1, s.gs = m1, gs
+			set(slM1)
+			set(slGS)
+		}
 	case "e2":
+		if e.dk == "f" || e.dk == "s" || !s.has[slM1] {
+			return "off", ""
+		}
 		m1 := s.m1
-		if e.x {
+		if e.x || e.dk == "u" {
 			enc, err := sha2pc.EncodeRound1(cv, s.m1)
 			if err != nil {
 				return fail("EncodeRound1", err)
+			}
+			if e.dk == "u" {
+				enc = mutateBytes(e.mu, enc)
 			}
 			if m1, err = sha2pc.DecodeRound1(cv, enc); err != nil {
 				return fail("DecodeRound1", err)
 			}
 		}
-		m2, es, err := sha2pc.EvaluatorRound2(hxlib.NewRng(s.s2), cv, m1, s.b)
+		m2, es, err := sha2pc.EvaluatorRound2(e.source(s.s2), cv, m1, s.b)
 		if err != nil {
 			return fail("EvaluatorRound2", err)
 		}
-		s.m2, s.es = m2, es
-		set(slM2)
-		set(slES)
+		if clean {
+			s.m2, s.es = m2, es
+			set(slM2)
+			set(slES)
+		}
 	case "g3":
+		if e.dk == "s" || !s.has[slGS] {
+			return "off", ""
+		}
 		gs, m2 := s.gs, s.m2
+		if e.dk == "f" {
+			if !q.has[slM2] {
+				return "off", ""
+			}
+			m2 = q.m2
+		} else if !s.has[slM2] {
+			return "off", ""
+		}
 		if e.x {
 			enc, err := sha2pc.EncodeGarblerSession(cv, s.gs)
 			if err != nil {
@@ -345,25 +508,49 @@ func (s *hsess) exec(e event, step int) (status, msg string) {
 				return fail("DecodeGarblerSession", err)
 			}
 		}
-		if e.y {
-			enc, err := sha2pc.EncodeRound2(cv, s.m2)
+		if e.y || e.dk == "u" {
+			enc, err := sha2pc.EncodeRound2(cv, m2)
 			if err != nil {
 				return fail("EncodeRound2", err)
+			}
+			if e.dk == "u" {
+				enc = mutateBytes(e.mu, enc)
 			}
 			if m2, err = sha2pc.DecodeRound2(cv, enc); err != nil {
 				return fail("DecodeRound2", err)
 			}
 		}
-		m3, err := sha2pc.GarblerRound3(hxlib.NewRng(s.s3), cv, gs, s.a, m2)
+		m3, err := sha2pc.GarblerRound3(e.source(s.s3), cv, gs, s.a, m2)
 		if err != nil {
 			return fail("GarblerRound3", err)
 		}
-		s.m3 = m3
-		set(slM3)
+		if clean {
+			s.m3 = m3
+			set(slM3)
+		}
 	case "e4":
+		if e.dk == "r" {
+			return "off", ""
+		}
 		es, m3 := s.es, s.m3
+		switch e.dk {
+		case "f":
+			if !s.has[slES] || !q.has[slM3] {
+				return "off", ""
+			}
+			m3 = q.m3
+		case "s":
+			if !q.has[slES] || !s.has[slM3] {
+				return "off", ""
+			}
+			es = q.es
+		default:
+			if !s.has[slES] || !s.has[slM3] {
+				return "off", ""
+			}
+		}
 		if e.x {
-			enc, err := sha2pc.EncodeEvaluatorSession(cv, s.es)
+			enc, err := sha2pc.EncodeEvaluatorSession(cv, es)
 			if err != nil {
 				return fail("EncodeEvaluatorSession", err)
 			}
@@ -371,10 +558,13 @@ func (s *hsess) exec(e event, step int) (status, msg string) {
 				return fail("DecodeEvaluatorSession", err)
 			}
 		}
-		if e.y {
-			enc, err := sha2pc.EncodeRound3(s.m3)
+		if e.y || e.dk == "u" {
+			enc, err := sha2pc.EncodeRound3(m3)
 			if err != nil {
 				return fail("EncodeRound3", err)
+			}
+			if e.dk == "u" {
+				enc = mutateBytes(e.mu, enc)
 			}
 			if m3, err = sha2pc.DecodeRound3(enc); err != nil {
 				return fail("DecodeRound3", err)
@@ -384,8 +574,10 @@ func (s *hsess) exec(e event, step int) (status, msg string) {
 		if err != nil {
 			return fail("EvaluatorRound4", err)
 		}
-		s.out = out
-		set(slOut)
+		if clean {
+			s.out = out
+			set(slOut)
+		}
 	default:
 		panic("act " + e.act)
 	}
@@ -439,10 +631,11 @@ func curvesFor(h int, r *hxlib.Rng) (cs []curveInfo, class string) {
 // given interleaving shape, extra evaluations of round 4 at later points, and
 // a final sweep consuming every round-3 message again in memory and through
 // bytes.
-func schedule(shape string, ss []*hsess, r *hxlib.Rng) []event {
+func schedule(shape string, ss []*hsess, r *hxlib.Rng, h int) []event {
 	k := len(ss)
 	core := func(i int) []event {
-		return []event{{i, "g1", false, false}, {i, "e2", r.Bool(), false}, {i, "g3", r.Bool(), r.Bool()}, {i, "e4", r.Bool(), r.Bool()}}
+		return []event{{sess: i, act: "g1"}, {sess: i, act: "e2", x: r.Bool()}, {sess: i, act: "g3", x: r.Bool(), y: r.Bool()},
+			{sess: i, act: "e4", x: r.Bool(), y: r.Bool()}}
 	}
 	var per [][]event
 	for i := 0; i < k; i++ {
@@ -479,7 +672,7 @@ func schedule(shape string, ss []*hsess, r *hxlib.Rng) []event {
 	default: // uniformly random merge; some sessions evaluate round 4 twice
 		for i := 0; i < k; i++ {
 			if r.Intn(3) == 0 && fastCurve(ss[i].ci) {
-				per[i] = append(per[i], event{i, "e4", r.Bool(), r.Bool()})
+				per[i] = append(per[i], event{sess: i, act: "e4", x: r.Bool(), y: r.Bool()})
 			}
 		}
 		pos := make([]int, k)
@@ -503,17 +696,162 @@ func schedule(shape string, ss []*hsess, r *hxlib.Rng) []event {
 			}
 		}
 	}
+	evs = disturb(evs, ss, r, h)
 	// final sweep: every session's round-3 message is consumed again after
-	// every other step of the history
+	// every other step of the history (failed ones included)
 	for i := 0; i < k; i++ {
 		if fastCurve(ss[i].ci) {
-			evs = append(evs, event{i, "e4", false, false}, event{i, "e4", true, true})
+			evs = append(evs, event{sess: i, act: "e4"}, event{sess: i, act: "e4", x: true, y: true})
 		} else {
 			last := per[i][3]
-			evs = append(evs, event{i, "e4", !last.x, !last.y})
+			evs = append(evs, event{sess: i, act: "e4", x: !last.x, y: !last.y})
 		}
 	}
 	return evs
+}
+
+// ---------------------------------------------------------------- failing steps
+
+// what round 3 draws: 32 bytes of garbling key, 16 bytes for R, then one
+// 16-byte label per input wire; the offsets around the boundaries
+var g3Boundaries = []int{0, 31, 32, 47, 48, 64, -17, -1} // negative: from the end
+
+var extraFaults = []string{"g3-foreign-msg", "e4-foreign-msg", "e4-foreign-state", "e2-malformed", "g3-malformed", "e4-malformed"}
+
+// indexOf returns the position of the undisturbed step `act` of session i.
+func indexOf(evs []event, i int, act string) int {
+	for p, e := range evs {
+		if e.sess == i && e.act == act && e.dk == "" {
+			return p
+		}
+	}
+	return len(evs)
+}
+
+// disturb inserts FAILING steps into the core schedule of history h: in every
+// history the random source fails once in round 1, once in round 2 and twice
+// in round 3 (seeded uniform offset inside what the round draws, and one of
+// the boundaries of what round 3 draws), plus two of the six foreign /
+// malformed classes in rotation.  A failing step goes either right before the
+// undisturbed step of the same round of its session (which is then the retry)
+// or at a seeded later point; wherever it goes, steps of other sessions
+// follow.  Nothing is inserted before the inputs of the step exist.
+func disturb(evs []event, ss []*hsess, r *hxlib.Rng, h int) []event {
+	k := len(ss)
+	type ins struct {
+		pos int
+		ev  event
+	}
+	var all []ins
+	// place: lo = first position at which every input of the step exists
+	place := func(ev event, lo int) {
+		own := indexOf(evs, ev.sess, ev.act)
+		pos := own
+		if own < lo || r.Intn(2) == 0 {
+			pos = lo + r.Intn(len(evs)-lo+1)
+		}
+		all = append(all, ins{pos, ev})
+	}
+	after := func(i int, act string) int { return indexOf(evs, i, act) + 1 }
+	max := func(a, b int) int {
+		if a > b {
+			return a
+		}
+		return b
+	}
+	rngOff := func(total, kind int) int {
+		lim := total // offsets 0 .. total-1: the source fails before the round has all it draws
+		if kind == 2 {
+			lim = total - 16 // a short read must be followed by another read
+		}
+		if lim < 1 {
+			lim = 1
+		}
+		return r.Intn(lim)
+	}
+	other := func(i int) int { return (i + 1 + r.Intn(k-1)) % k }
+
+	// random source failures, every round that draws randomness
+	i1, i2, i3, i3b := r.Intn(k), r.Intn(k), r.Intn(k), r.Intn(k)
+	kd := r.Intn(3)
+	place(event{sess: i1, act: "g1", dk: "r", kind: kd, off: rngOff(ss[i1].n1, kd)}, 0)
+	kd = r.Intn(3)
+	place(event{sess: i2, act: "e2", x: r.Bool(), dk: "r", kind: kd, off: rngOff(ss[i2].n2, kd)}, after(i2, "g1"))
+	kd = r.Intn(3)
+	place(event{sess: i3, act: "g3", x: r.Bool(), y: r.Bool(), dk: "r", kind: kd, off: rngOff(ss[i3].n3, kd)}, after(i3, "e2"))
+	kd = r.Intn(3)
+	bo := g3Boundaries[h%len(g3Boundaries)]
+	if bo < 0 {
+		bo += ss[i3b].n3
+	}
+	if kd == 2 && bo > ss[i3b].n3-16 {
+		kd = 1
+	}
+	place(event{sess: i3b, act: "g3", x: r.Bool(), y: r.Bool(), dk: "r", kind: kd, off: bo}, after(i3b, "e2"))
+
+	// foreign and malformed messages
+	for c := 0; c < 2; c++ {
+		i := r.Intn(k)
+		j := other(i)
+		d1, d2, d3, _, _ := docSizes(ss[i].ci)
+		// A foreign value goes through bytes only between sessions of one curve: the step encodes with the
+		// curve of ITS session (Encode* of a value of a wider curve is outside the encoders' domain:
+		// writeFixedBigInt), and the model's trip through bytes is the one of the consuming session.
+		// Bytes of another curve's message are the decoders' business (proto mode, mismatch_decode-*).
+		same := ss[i].ci.name == ss[j].ci.name
+		switch extraFaults[(h+3*c)%len(extraFaults)] {
+		case "g3-foreign-msg":
+			place(event{sess: i, act: "g3", x: r.Bool(), y: r.Bool() && same, dk: "f", src: j}, max(after(i, "g1"), after(j, "e2")))
+		case "e4-foreign-msg":
+			place(event{sess: i, act: "e4", x: r.Bool(), y: r.Bool() && same, dk: "f", src: j}, max(after(i, "e2"), after(j, "g3")))
+		case "e4-foreign-state":
+			place(event{sess: i, act: "e4", x: r.Bool() && same, y: r.Bool(), dk: "s", src: j}, max(after(i, "g3"), after(j, "e2")))
+		case "e2-malformed":
+			place(event{sess: i, act: "e2", x: true, dk: "u", mu: mutation(r, d1, h)}, after(i, "g1"))
+		case "g3-malformed":
+			place(event{sess: i, act: "g3", x: r.Bool(), y: true, dk: "u", mu: mutation(r, d2, h)}, after(i, "e2"))
+		default:
+			place(event{sess: i, act: "e4", x: r.Bool(), y: true, dk: "u", mu: mutation(r, d3, h)}, after(i, "g3"))
+		}
+	}
+	sort.SliceStable(all, func(a, b int) bool { return all[a].pos < all[b].pos })
+	var out []event
+	n := 0
+	for p := 0; p <= len(evs); p++ {
+		for n < len(all) && all[n].pos == p {
+			out = append(out, all[n].ev)
+			n++
+		}
+		if p < len(evs) {
+			out = append(out, evs[p])
+		}
+	}
+	return out
+}
+
+// mutation picks what happens to an encoding in transit (classes in rotation):
+// cut to 0, 1, 10 bytes, to one byte less than the documented length, to a
+// seeded length (mod the length: see mutateBytes), or one extra byte (zero /
+// seeded).
+func mutation(r *hxlib.Rng, docLen, class int) int {
+	switch class % 9 {
+	case 8:
+		return 2 * (docLen - 1)
+	case 0:
+		return 0
+	case 1:
+		return 2 * 1
+	case 2:
+		return 2 * 10
+	case 3:
+		return 2 * r.Intn(1<<20)
+	case 4:
+		return 2*0 + 1
+	case 5:
+		return 2*r.Intn(256) + 1
+	default:
+		return 2 * (1 + r.Intn(4096))
+	}
 }
 
 // ---------------------------------------------------------------- the mode
@@ -575,22 +913,18 @@ func histMode(args []string) int {
 			a, b := inputPair(r, h+i)
 			ss = append(ss, &hsess{ci: cs[i], a: a, b: b, s1: r.U64(), s2: r.U64(), s3: r.U64()})
 		}
-		evs := schedule(shape, ss, r)
 		var names, inputs, tapes, sched []string
 		for _, s := range ss {
 			names = append(names, s.ci.name)
 			inputs = append(inputs, hxlib.Hex(s.a[:])+"/"+hxlib.Hex(s.b[:]))
 			tapes = append(tapes, fmt.Sprintf("%d/%d/%d", s.s1, s.s2, s.s3))
 		}
-		for _, e := range evs {
-			sched = append(sched, e.String())
-		}
 		detail := func() map[string]any {
 			return map[string]any{"history": h, "sessions": k, "curves": strings.Join(names, ","), "shape": shape,
 				"schedule": strings.Join(sched, ","), "inputs_a/b": strings.Join(inputs, " "), "tapes": strings.Join(tapes, " "),
 				"rerun": fmt.Sprintf("go run -tags verif ./cmd/c18 hist -repo %s -seed %d -n %d -tier %s -only %d", repo, cf.Seed, cf.N, cf.Tier, h)}
 		}
-		// the isolated runs (reference values = the model's round functions)
+		// the isolated runs (reference values = the model's round functions; how many bytes each round draws)
 		bad := false
 		for i, s := range ss {
 			if err := s.refRun(); err != nil {
@@ -604,6 +938,10 @@ func histMode(args []string) int {
 		}
 		if bad {
 			continue
+		}
+		evs := schedule(shape, ss, r, h+int(cf.Seed%24))
+		for _, e := range evs {
+			sched = append(sched, e.String())
 		}
 		o.Count(fmt.Sprintf("hist_k%d", k))
 		o.Count("hist_curves_" + cclass)
@@ -621,30 +959,85 @@ func histMode(args []string) int {
 		lastG3 := -1 // step index of the latest round 3 of any session
 		lastG3Sess := -1
 		reported := map[string]bool{}
+		g3Since := map[int]int{} // step of a round 3 whose random source failed -> successful round 3 since
 		for t, e := range evs {
 			s := ss[e.sess]
-			if e.act == "e4" {
+			mm := map[bool]string{false: "memory", true: "bytes"}
+			if e.dk == "" && e.act == "e4" {
 				// class of the consumption: was a round 3 of ANOTHER session run after this message was produced?
 				after := "own-round3-latest"
 				if lastG3 > s.prodStep[slM3] && lastG3Sess != e.sess {
 					after = "after-foreign-round3"
 				}
-				o.Count("hist_e4_msg3-" + map[bool]string{false: "memory", true: "bytes"}[e.y] + "_" + after)
-				o.Count("hist_e4_session-" + map[bool]string{false: "memory", true: "bytes"}[e.x])
+				o.Count("hist_e4_msg3-" + mm[e.y] + "_" + after)
+				o.Count("hist_e4_session-" + mm[e.x])
 			}
-			if e.act == "g3" {
-				o.Count("hist_g3_session-" + map[bool]string{false: "memory", true: "bytes"}[e.x] + "_msg2-" + map[bool]string{false: "memory", true: "bytes"}[e.y])
+			if e.dk == "" && e.act == "g3" {
+				o.Count("hist_g3_session-" + mm[e.x] + "_msg2-" + mm[e.y])
 			}
-			if e.act == "e2" {
-				o.Count("hist_e2_msg1-" + map[bool]string{false: "memory", true: "bytes"}[e.x])
+			if e.dk == "" && e.act == "e2" {
+				o.Count("hist_e2_msg1-" + mm[e.x])
 			}
-			status, msg := s.exec(e, t)
-			if e.act == "g3" && status == "ok" {
+			status, msg := s.exec(e, t, ss)
+			if e.dk == "" && e.act == "g3" && status == "ok" {
 				lastG3, lastG3Sess = t, e.sess
+				for f := range g3Since {
+					g3Since[f]++
+					if g3Since[f] == 2 {
+						o.Count("hist_fault_g3_rng_then-two-round3")
+					}
+				}
+			}
+			if e.dk != "" {
+				// classes of the failing steps
+				class := e.act + "_" + map[string]string{"r": "rng", "f": "foreign-msg", "s": "foreign-state", "u": "malformed"}[e.dk]
+				o.Count("hist_fault_" + class + "_" + status)
+				if e.dk == "r" {
+					o.Count(fmt.Sprintf("hist_fault_rng_kind%d", e.kind))
+					if e.act == "g3" {
+						region := "labels"
+						if e.off < 32 {
+							region = "key"
+						} else if e.off < 48 {
+							region = "r"
+						}
+						o.Count("hist_fault_g3_rng_" + region)
+						g3Since[t] = 0
+					}
+				}
+				if e.dk == "u" {
+					o.Count("hist_fault_malformed_" + map[bool]string{true: "cut", false: "extended"}[e.mu%2 == 0])
+				}
+				own := indexOf(evs, e.sess, e.act)
+				if own > t && own < len(evs) {
+					o.Count("hist_fault_before-own-step")
+				} else {
+					o.Count("hist_fault_after-own-step")
+				}
+				for _, later := range evs[t+1:] {
+					if later.sess != e.sess && later.dk == "" && later.act != "e4" {
+						o.Count("hist_fault_followed-by-round123-of-other-session")
+						break
+					}
+				}
+				for _, later := range evs[t+1:] {
+					if later.sess != e.sess && later.dk == "" {
+						o.Count("hist_fault_followed-by-step-of-other-session")
+						break
+					}
+				}
 			}
 			o.Count("hist_steps")
 			steps = append(steps, status+"/"+stateLine(ss))
-			if status != "ok" {
+			switch {
+			case status == "panic":
+				dt := detail()
+				dt["step"] = t
+				dt["event"] = e.String()
+				dt["msg"] = msg
+				dt["what"] = "step " + e.act + " crashes (disturbance " + e.dk + ")"
+				failK(o, "c18-history-crash", dt)
+			case e.dk == "" && status != "ok":
 				dt := detail()
 				dt["step"] = t
 				dt["event"] = e.String()
@@ -652,6 +1045,13 @@ func histMode(args []string) int {
 				dt["msg"] = msg
 				dt["what"] = "step " + e.act + " fails"
 				failK(o, "c18-history-diverges", dt)
+			case e.dk != "" && status != "err":
+				dt := detail()
+				dt["step"] = t
+				dt["event"] = e.String()
+				dt["status"] = status
+				dt["what"] = "disturbed step " + e.act + " (" + e.dk + ") is not answered with an error"
+				failK(o, "c18-history-fault-accepted", dt)
 			}
 			// payload immutability + isolation, judged on the real objects
 			for j, q := range ss {
@@ -676,9 +1076,12 @@ func histMode(args []string) int {
 							rel = "other"
 						}
 						dt["what"] = slotNames[sl] + " of " + rel + " session changed by " + e.act
+						if e.dk != "" {
+							dt["what"] = slotNames[sl] + " of " + rel + " session changed by a FAILED " + e.act
+						}
 						failK(o, "c18-history-value-changed", dt)
 					}
-					if j == e.sess && q.prodStep[sl] == t && status == "ok" && now != q.ref[sl] {
+					if j == e.sess && e.dk == "" && q.prodStep[sl] == t && status == "ok" && now != q.ref[sl] {
 						dt := detail()
 						dt["step"] = t
 						dt["event"] = e.String()
@@ -690,7 +1093,7 @@ func histMode(args []string) int {
 					}
 				}
 			}
-			if e.act == "e4" && status == "ok" {
+			if e.act == "e4" && e.dk == "" && status == "ok" {
 				if want := refDigest(s.a, s.b); s.out != want {
 					dt := detail()
 					dt["step"] = t
